@@ -8,8 +8,10 @@ def run(ctx):
     pm = ['VF_MAXCOPY=120']
     for pres in (1, 2, 4): T(ctx, 'C05_tok_x%d' % pres, perm=1, pres=pres, defs=defs, extra_defs=pm)
     T(ctx, 'C05_none', perm=1, pres=0, defs=defs, extra_defs=pm)
+    # group as the last body field followed by group-element tags or a non-dictionary tag (unknown token directly behind the last element)
+    T(ctx, 'C05_group_tail', perm=1, pres=0, ng=2, gpres=3, glast=True, defs=defs, extra_defs=pm + ['GMENUMASK0=0x800', 'GMENUMASK=0x1840', 'C05_FIELDS_ONLY'], timeout=1200)
     for pres in (3, 5, 6): T(ctx, 'C05_tok_x%d' % pres, perm=1, pres=pres, defs=defs, extra_defs=pm, tier='thorough', timeout=2400)
-    T(ctx, 'C05_group2', perm=1, pres=0, ng=2, gpres=3, defs=defs, extra_defs=pm, tier='thorough', timeout=2400)
+    T(ctx, 'C05_group2', perm=1, pres=0, ng=2, gpres=3, defs=defs, extra_defs=pm + ['C05_FIELDS_ONLY'], tier='thorough', timeout=2400)
     ctx.assumptions += codec.DECODE_ASSUMPTIONS + ['re-encoding is not executed: MessageBase::encode emits each component\'s fields followed by its _unknown string (runtime/message.cpp:368), so the pass-through strings of header, body and trailer determine the re-emitted unknown bytes',
                                                    'unknown tokens inside repeating groups: thorough tier only']
     ctx.solve(jobs=codec.JOBS)
